@@ -32,9 +32,45 @@
    bit-for-bit unchanged".  In the model inputs are values passed by value and are never outputs; only
    the run-time check (gen/c12.py: in=1 / ro= fields, ASan builds) speaks about the C code.
 
-   Not proved: that the text blocks of the result are still live in the final ledger (the model never
-   frees a block it has just recorded, but the theorem is not stated); pairwise distinctness including
-   the node and address blocks. *)
+   Second part of this file (proofs: Proofs/OwnershipMore.v, on top of the ledger development of C13/C14,
+   Proofs/LedgerProofs.v ... LedgerHistory.v): what the ledger says about the result.  Vocabulary:
+     wf s               live ids pairwise distinct and below the next id (implies ledger_wf s)
+     live_ids s         the ids of the live blocks
+     muri_blocks m      every block the object refers to: text blocks, list nodes, ip4/ip6 blocks
+     owns m s           m is consistent with its owner flag (a text has a block of its own iff the object owns
+                        its texts and the text is not empty) and all its blocks are pairwise distinct and live in s
+     sane m             scheme and IPvFuture text are not present-and-empty; true of every parsed object and
+                        kept by every operation (C13_parsed_sane, C13_sane_is_kept)
+     whole m s          NoDup (muri_blocks m), all of them live in s, and (a consequence) all text_blocks m live
+     apart m1 m2        no block of m1 is a block of m2
+     release_all l s    the ledger after free_members of the objects of l, in order
+     owned_beside srcs s d' s2   the owned object d' in s2, built beside the objects srcs held by s: see
+                        C12_vocabulary for the unfolded conjunction
+     hrun, hstep        Proofs/LedgerHistory.v: a store of objects and one ledger, any sequence of parse,
+                        normalize, make-owner, add-base, remove-base, free on any of the objects
+     store_ok objs s    balanced objs s (the ledger holds exactly the blocks of the objects, each object is
+                        consistent and sane), the plan is NoFault, every object is mwf
+   "Releasing the source changes nothing" is now a statement about TWO objects and one ledger: the result
+   shares no block with any other object the ledger holds (the object parsed from the same text, the base
+   and the reference of a resolution), and free_members of those leaves every block of the result live
+   (C12_release_other, C12_make_owner_beside, C12_normalize_beside, C12_parse_twice_own,
+   C12_resolve_then_own, C12_shorten_then_own, C12_history_release_other).  "Overwriting the source" has no
+   model counterpart other than depends_on_input = false (no present non-empty text without a block of its
+   own): the caller's string is not a memory object of the model; gen/c12.py scribbles on the real buffer.
+
+   Hypotheses the proofs forced (each is true of every object of every history that starts from the empty
+   store, C12_history_store_ok / C12_store_ok_objects):
+   - [owns m s] (hence text_blocks m = [] for a borrowed m) and [wf s] in the ledger theorems;
+   - [sane m] for the normalisation of a borrowed object: a hypothesis of the reused ledger theorem
+     normalize_m_spec.  It is needed there for the failure exits (normalize_m_insane_refuted uses FailOnce);
+     whether the NoFault statement holds without it is not settled here (the two witnesses of that
+     refutation behave well under NoFault: C12_insane_nofault_examples).
+   The hypothesis "a borrowed object records no text block" (the fourth clause of mwf, used by C12_make_owner
+   and C12_normalize_borrowed) was forced by the proof technique, not by truth: C12_make_owner_any_blocks and
+   C12_normalize_any_blocks state the same conclusions with mwf_host only.
+   Not a theorem because it is false: "normalisation releases nothing".  It releases the list nodes (and, for
+   an owned object, the text blocks) of the dot segments it removes (C12_normalize_releases_nodes); make-owner
+   does release nothing (C12_make_owner_releases_nothing). *)
 From Coq Require Import List NArith Bool.
 From UP Require Import Base.Chars Model.Uri Model.Parse Model.Normalize Model.Resolve Model.Shorten Model.Recompose
   Model.Mem Model.ParseM Model.OpsM Proofs.OwnershipProofs.
@@ -144,4 +180,281 @@ Example C12_host_range_needed :
               m_fragment := mt_none; m_abs := false; m_owner := false |} in
   let '(rc, m', _) := make_owner_m 1 m (ms_init NoFault) in
   rc = URI_SUCCESS /\ hostText (erase m) = Some [121] /\ hostText (erase m') = Some [120].
+Proof. vm_compute. repeat split. Qed.
+
+(* ======================================================================================================
+   Second part: liveness, all blocks, two objects in one ledger, pipelines, histories
+   (Proofs/OwnershipMore.v; vocabulary in the header) *)
+From Coq Require Import Permutation.
+From UP Require Import Proofs.LedgerProofs Proofs.LedgerTheorems Proofs.LedgerHistory Proofs.OwnershipMore.
+
+(* the vocabulary of this part, unfolded *)
+Theorem C12_vocabulary : forall srcs s d' s2 m m1 m2 objs,
+  (whole m s <-> (NoDup (muri_blocks m) /\ incl (muri_blocks m) (live_ids s) /\ incl (text_blocks m) (live_ids s)))
+  /\ (apart m1 m2 <-> (forall b, In b (muri_blocks m1) -> ~ In b (muri_blocks m2)))
+  /\ (store_ok objs s <-> (balanced objs s /\ nofault s /\ Forall mwf objs))
+  /\ (owned_beside srcs s d' s2 <->
+      (m_owner d' = true /\ all_owned d' = true /\ depends_on_input d' = false /\ mwf d'
+       /\ fresh_blocks s s2 d' /\ nofault s2 /\ wf s2 /\ owns d' s2 /\ whole d' s2
+       /\ (forall o, In o srcs -> owns o s2 /\ apart o d')
+       /\ incl (live_ids s) (live_ids s2) /\ Permutation (live_ids s2) (muri_blocks d' ++ live_ids s)
+       /\ bad_frees s2 = bad_frees s
+       /\ (let sf := release_all srcs s2 in wf sf /\ owns d' sf /\ whole d' sf /\ bad_frees sf = bad_frees s))).
+Proof. exact vocabulary_meaning. Qed.
+Print Assumptions C12_vocabulary.
+
+(* the text blocks of an object are among its blocks (any object) *)
+Theorem C12_text_blocks_are_blocks : forall m, incl (text_blocks m) (muri_blocks m).
+Proof. exact text_blocks_incl. Qed.
+Print Assumptions C12_text_blocks_are_blocks.
+
+(* [wf] implies the ledger hypothesis of fresh_blocks, holds initially (C13: wf_init) and is kept by every
+   whole operation, under any fault plan *)
+Theorem C12_wf_kept : forall csize s, wf s ->
+  ledger_wf s
+  /\ (forall t, wf (snd (parse_m t s)))
+  /\ (forall m, owns m s -> wf (snd (make_owner_m csize m s)))
+  /\ (forall mask m, owns m s -> (m_owner m = false -> sane m) -> wf (snd (normalize_m csize mask m s)))
+  /\ (forall compat rel base, wf (snd (add_base_m compat rel base s)))
+  /\ (forall dr src base, wf (snd (remove_base_m dr src base s)))
+  /\ (forall m, owns m s -> wf (snd (free_members m s))).
+Proof. exact wf_kept. Qed.
+Print Assumptions C12_wf_kept.
+
+(* ---- liveness and distinctness of ALL blocks of the result ------------------------------------------ *)
+(* make-owner of a borrowed object the ledger holds: besides what C12_make_owner says, the result holds all
+   its blocks -- text, nodes, address blocks -- pairwise distinct and live in the final ledger; the ledger
+   changed by exactly the difference of the two block lists; no block outside the object moved; no release
+   hit a block that was not live *)
+Theorem C12_make_owner_live : forall csize m s, wf s -> nofault s -> owns m s -> mwf m -> m_owner m = false ->
+  exists m' s', make_owner_m csize m s = (URI_SUCCESS, m', s')
+    /\ erase m' = make_owner (erase m) /\ to_text (erase m') = to_text (erase m)
+    /\ m_owner m' = true /\ all_owned m' = true /\ depends_on_input m' = false
+    /\ mwf m' /\ fresh_blocks s s' m' /\ nofault s'
+    /\ wf s' /\ owns m' s' /\ bad_frees s' = bad_frees s
+    /\ NoDup (muri_blocks m') /\ incl (muri_blocks m') (live_ids s') /\ incl (text_blocks m') (live_ids s')
+    /\ Permutation (live_ids s' ++ muri_blocks m) (muri_blocks m' ++ live_ids s)
+    /\ (forall b, In b (live_ids s) -> ~ In b (muri_blocks m) -> In b (live_ids s')).
+Proof. exact make_owner_live. Qed.
+Print Assumptions C12_make_owner_live.
+
+(* normalisation, any non-zero mask, borrowed or owned input *)
+Theorem C12_normalize_live : forall csize mask m s, wf s -> nofault s -> owns m s -> mwf m ->
+  (m_owner m = false -> sane m) -> mask <> 0 ->
+  exists m' s', normalize_m csize mask m s = (URI_SUCCESS, m', s')
+    /\ erase m' = normalize mask (erase m)
+    /\ m_owner m' = true /\ all_owned m' = true /\ depends_on_input m' = false
+    /\ mwf m' /\ (m_owner m = false -> fresh_blocks s s' m') /\ (m_owner m = true -> incl (text_blocks m') (text_blocks m))
+    /\ nofault s'
+    /\ wf s' /\ owns m' s' /\ bad_frees s' = bad_frees s
+    /\ NoDup (muri_blocks m') /\ incl (muri_blocks m') (live_ids s') /\ incl (text_blocks m') (live_ids s')
+    /\ Permutation (live_ids s' ++ muri_blocks m) (muri_blocks m' ++ live_ids s)
+    /\ (forall b, In b (live_ids s) -> ~ In b (muri_blocks m) -> In b (live_ids s')).
+Proof. exact normalize_live. Qed.
+Print Assumptions C12_normalize_live.
+
+(* ---- two objects, one ledger ------------------------------------------------------------------------ *)
+(* releasing one object leaves every block of any other object of the ledger live *)
+Theorem C12_release_other : forall m1 m2 s m1' s1, wf s -> owns m1 s -> owns m2 s -> apart m1 m2 ->
+  free_members m1 s = (m1', s1) ->
+  wf s1 /\ owns m2 s1 /\ bad_frees s1 = bad_frees s
+  /\ NoDup (muri_blocks m2) /\ incl (muri_blocks m2) (live_ids s1) /\ incl (text_blocks m2) (live_ids s1)
+  /\ Permutation (live_ids s) (muri_blocks m1 ++ live_ids s1).
+Proof. exact release_other. Qed.
+Print Assumptions C12_release_other.
+
+(* m2 is made owner while another object m1 (e.g. the object parsed from the same string) sits in the same
+   ledger: m1 is still held, the result shares no block with it, and releasing m1 afterwards leaves every
+   block of the result live *)
+Theorem C12_make_owner_beside : forall csize m1 m2 s, wf s -> nofault s -> owns m1 s -> owns m2 s -> apart m1 m2 ->
+  mwf m2 -> m_owner m2 = false ->
+  exists m2' s', make_owner_m csize m2 s = (URI_SUCCESS, m2', s')
+    /\ erase m2' = make_owner (erase m2) /\ all_owned m2' = true /\ depends_on_input m2' = false
+    /\ wf s' /\ owns m1 s' /\ owns m2' s' /\ apart m1 m2'
+    /\ (forall m1' s1, free_members m1 s' = (m1', s1) ->
+          wf s1 /\ owns m2' s1 /\ bad_frees s1 = bad_frees s
+          /\ NoDup (muri_blocks m2') /\ incl (muri_blocks m2') (live_ids s1) /\ incl (text_blocks m2') (live_ids s1)).
+Proof. exact make_owner_beside. Qed.
+Print Assumptions C12_make_owner_beside.
+
+Theorem C12_normalize_beside : forall csize mask m1 m2 s, wf s -> nofault s -> owns m1 s -> owns m2 s -> apart m1 m2 ->
+  mwf m2 -> (m_owner m2 = false -> sane m2) -> mask <> 0 ->
+  exists m2' s', normalize_m csize mask m2 s = (URI_SUCCESS, m2', s')
+    /\ erase m2' = normalize mask (erase m2) /\ all_owned m2' = true /\ depends_on_input m2' = false
+    /\ wf s' /\ owns m1 s' /\ owns m2' s' /\ apart m1 m2'
+    /\ (forall m1' s1, free_members m1 s' = (m1', s1) ->
+          wf s1 /\ owns m2' s1 /\ bad_frees s1 = bad_frees s
+          /\ NoDup (muri_blocks m2') /\ incl (muri_blocks m2') (live_ids s1) /\ incl (text_blocks m2') (live_ids s1)).
+Proof. exact normalize_beside. Qed.
+Print Assumptions C12_normalize_beside.
+
+(* ---- pipelines -------------------------------------------------------------------------------------- *)
+(* two objects parsed (from the same text when t1 = t2) into one ledger; the second is made owner: it has the
+   value of the first, owns all its text, and releasing the first leaves it whole *)
+Theorem C12_parse_twice_own : forall csize t1 t2 s m1 s1 m2 s2, wf s -> nofault s ->
+  parse_m t1 s = (MOk m1, s1) -> parse_m t2 s1 = (MOk m2, s2) ->
+  exists m2' s3, make_owner_m csize m2 s2 = (URI_SUCCESS, m2', s3)
+    /\ parse t2 = POk (erase m2) /\ erase m2' = make_owner (erase m2) /\ to_text (erase m2') = to_text (erase m2)
+    /\ (t1 = t2 -> erase m2 = erase m1)
+    /\ owned_beside [m1] s1 m2' s3.
+Proof. exact parse_twice_own. Qed.
+Print Assumptions C12_parse_twice_own.
+
+(* what the C driver runs for resolution: uriAddBaseUriExMm, then uriMakeOwnerMm on the result.  The final
+   object has the value of the pure resolution (owner flag set), owns all its text in fresh distinct live
+   blocks, the reference and the base are untouched and may be released *)
+Theorem C12_resolve_then_own : forall csize compat rel base s, wf s -> nofault s -> owns rel s -> owns base s ->
+  apart rel base -> mwf rel -> mwf base ->
+  exists rc d s1 d' s2, add_base_m compat rel base s = (rc, d, s1)
+    /\ (rc, erase d) = add_base compat (erase rel) (erase base)
+    /\ make_owner_m csize d s1 = (URI_SUCCESS, d', s2)
+    /\ erase d' = make_owner (snd (add_base compat (erase rel) (erase base)))
+    /\ to_text (erase d') = to_text (snd (add_base compat (erase rel) (erase base)))
+    /\ owned_beside [rel; base] s d' s2.
+Proof. exact resolve_then_own. Qed.
+Print Assumptions C12_resolve_then_own.
+
+(* likewise uriRemoveBaseUriMm, then uriMakeOwnerMm *)
+Theorem C12_shorten_then_own : forall csize dr src base s, wf s -> nofault s -> owns src s -> owns base s ->
+  apart src base -> mwf src -> mwf base ->
+  exists rc d s1 d' s2, remove_base_m dr src base s = (rc, d, s1)
+    /\ (rc, erase d) = remove_base dr (erase src) (erase base)
+    /\ make_owner_m csize d s1 = (URI_SUCCESS, d', s2)
+    /\ erase d' = make_owner (snd (remove_base dr (erase src) (erase base)))
+    /\ to_text (erase d') = to_text (snd (remove_base dr (erase src) (erase base)))
+    /\ owned_beside [src; base] s d' s2.
+Proof. exact shorten_then_own. Qed.
+Print Assumptions C12_shorten_then_own.
+
+(* ---- whole histories -------------------------------------------------------------------------------- *)
+(* one step of a history keeps the store invariant, and releases nothing that is not live *)
+Theorem C12_store_ok_step : forall csize objs s op, store_ok objs s ->
+  store_ok (fst (hstep csize (objs, s) op)) (snd (hstep csize (objs, s) op))
+  /\ bad_frees (snd (hstep csize (objs, s) op)) = bad_frees s.
+Proof. exact hstep_store_ok. Qed.
+Print Assumptions C12_store_ok_step.
+
+(* any history from the empty store under NoFault *)
+Theorem C12_history_store_ok : forall csize ops,
+  store_ok (fst (hrun csize ops ([], ms_init NoFault))) (snd (hrun csize ops ([], ms_init NoFault)))
+  /\ bad_frees (snd (hrun csize ops ([], ms_init NoFault))) = 0%nat.
+Proof. exact history_store_ok. Qed.
+Print Assumptions C12_history_store_ok.
+
+(* the store invariant supplies every hypothesis of the theorems above: for the ledger, for each object,
+   and for each pair of objects *)
+Theorem C12_store_ok_objects : forall objs s, store_ok objs s ->
+  wf s /\ ledger_wf s /\ nofault s
+  /\ Permutation (live_ids s) (flat_map muri_blocks objs)
+  /\ (forall i m, nth_error objs i = Some m -> owns m s /\ mwf m /\ sane m /\ whole m s)
+  /\ (forall i j m1 m2, i <> j -> nth_error objs i = Some m1 -> nth_error objs j = Some m2 -> apart m1 m2).
+Proof. exact store_ok_objects. Qed.
+Print Assumptions C12_store_ok_objects.
+
+(* in any reachable store: two different objects share no block, and releasing one leaves the other whole;
+   an object whose owner flag is set (it went through make-owner or normalisation) refers to no caller memory *)
+Theorem C12_history_release_other : forall csize ops i j m1 m2,
+  let st := hrun csize ops ([], ms_init NoFault) in
+  i <> j -> nth_error (fst st) i = Some m1 -> nth_error (fst st) j = Some m2 ->
+  whole m2 (snd st) /\ apart m1 m2
+  /\ (let s1 := snd (free_members m1 (snd st)) in whole m2 s1 /\ owns m2 s1 /\ bad_frees s1 = 0%nat)
+  /\ (m_owner m2 = true -> all_owned m2 = true /\ depends_on_input m2 = false).
+Proof. exact history_release_other. Qed.
+Print Assumptions C12_history_release_other.
+
+(* non-vacuity, two objects and one ledger: the base "s://1.2.3.4/a/b?q" and the reference "../c/d#f" are
+   parsed, the reference is resolved, the result is made owner, then both sources are released.  The result
+   depended on the input before make-owner and does not afterwards; it shares no block with the sources
+   (blocks 0-2 and 3-5); its eight blocks (five text blocks, two nodes, one ip4 block) are exactly what is
+   still live at the end, and no release hit a block that was not live *)
+Example C12_two_objects_nonvacuous :
+  let tb := [115; 58; 47; 47; 49; 46; 50; 46; 51; 46; 52; 47; 97; 47; 98; 63; 113] in
+  let tr := [46; 46; 47; 99; 47; 100; 35; 102] in
+  match parse_m tb (ms_init NoFault) with
+  | (MOk base, s1) =>
+    match parse_m tr s1 with
+    | (MOk rel, s2) =>
+      let '(rc, d, s3) := add_base_m false rel base s2 in
+      let '(rc2, d', s4) := make_owner_m 4 d s3 in
+      let s6 := release_all [rel; base] s4 in
+      rc = URI_SUCCESS /\ rc2 = URI_SUCCESS
+      /\ muri_blocks base = [0; 1; 2]%nat /\ muri_blocks rel = [3; 4; 5]%nat
+      /\ depends_on_input d = true /\ depends_on_input d' = false
+      /\ to_text (erase d') = [115; 58; 47; 47; 49; 46; 50; 46; 51; 46; 52; 47; 99; 47; 100; 35; 102]
+      /\ text_blocks d' = [11; 13; 14; 15; 12]%nat
+      /\ muri_blocks d' = [11; 13; 6; 9; 14; 10; 15; 12]%nat
+      /\ live_ids s4 = [15; 14; 13; 12; 11; 10; 9; 6; 5; 4; 3; 2; 1; 0]%nat
+      /\ live_ids s6 = [15; 14; 13; 12; 11; 10; 9; 6]%nat
+      /\ bad_frees s6 = 0%nat
+    | _ => False
+    end
+  | _ => False
+  end.
+Proof. vm_compute. repeat split. Qed.
+
+(* ---- the hypothesis "a borrowed object records no text block" ---------------------------------------- *)
+(* C12_make_owner asks for mwf m, whose fourth clause says that a borrowed object records no text block.  The
+   clause is not needed: only "hostText = ipFuture when ipFuture is set" is.  Blocks recorded by a borrowed
+   object are forgotten by make-owner (never looked at, never released) *)
+Theorem C12_make_owner_any_blocks : forall csize m s, nofault s -> mwf_host m -> m_owner m = false ->
+  exists m' s', make_owner_m csize m s = (URI_SUCCESS, m', s')
+    /\ erase m' = make_owner (erase m) /\ to_text (erase m') = to_text (erase m)
+    /\ m_owner m' = true /\ all_owned m' = true /\ depends_on_input m' = false
+    /\ mwf m' /\ fresh_blocks s s' m' /\ nofault s'.
+Proof. exact make_owner_any_blocks. Qed.
+Print Assumptions C12_make_owner_any_blocks.
+
+(* likewise C12_normalize_borrowed: any non-zero mask, a borrowed object that may record blocks *)
+Theorem C12_normalize_any_blocks : forall csize mask m s, nofault s -> mwf_host m -> m_owner m = false -> mask <> 0 ->
+  exists m' s', normalize_m csize mask m s = (URI_SUCCESS, m', s')
+    /\ erase m' = normalize mask (erase m)
+    /\ m_owner m' = true /\ all_owned m' = true /\ depends_on_input m' = false
+    /\ mwf m' /\ fresh_blocks s s' m' /\ nofault s'.
+Proof. exact normalize_any_blocks. Qed.
+Print Assumptions C12_normalize_any_blocks.
+
+(* ---- what is released ------------------------------------------------------------------------------- *)
+(* a successful make-owner of a borrowed object releases nothing (any plan): every block that was live is
+   still live, and the result holds every node and address block the input held *)
+Theorem C12_make_owner_releases_nothing : forall csize m s m' s', wf s -> owns m s -> m_owner m = false ->
+  make_owner_m csize m s = (URI_SUCCESS, m', s') ->
+  incl (muri_blocks m) (muri_blocks m') /\ incl (live_ids s) (live_ids s').
+Proof. exact make_owner_releases_nothing. Qed.
+Print Assumptions C12_make_owner_releases_nothing.
+
+(* normalisation does release blocks of its own object: "a/./b" loses the node (block 1) of the "." segment,
+   and the copy (block 4) it had made of that segment's text *)
+Example C12_normalize_releases_nodes :
+  match parse_m [97; 47; 46; 47; 98] (ms_init NoFault) with
+  | (MOk m, s1) =>
+    let '(rc, m', s2) := normalize_m 1 63 m s1 in
+    rc = URI_SUCCESS /\ muri_blocks m = [0; 1; 2]%nat /\ live_ids s1 = [2; 1; 0]%nat
+    /\ muri_blocks m' = [0; 3; 2; 5]%nat /\ live_ids s2 = [5; 3; 2; 0]%nat
+  | _ => False
+  end.
+Proof. vm_compute. repeat split. Qed.
+
+(* the two theorems above are not vacuous: a borrowed object whose scheme and path segment record the blocks 7
+   and 8 (not mwf: text_blocks m <> []); make-owner and normalisation copy the texts into fresh blocks and
+   forget 7 and 8 *)
+Example C12_recorded_blocks_nonvacuous :
+  let m := {| m_scheme := {| t_val := Some [83]; t_blk := Some 7%nat |}; m_userInfo := mt_none; m_hostText := mt_none;
+              m_ip4 := None; m_ip6 := None; m_ipFuture := mt_none; m_portText := mt_none;
+              m_segs := [{| sg_text := [97]; sg_blk := Some 8%nat; sg_node := 0%nat |}]; m_query := mt_none;
+              m_fragment := mt_none; m_abs := false; m_owner := false |} in
+  text_blocks m = [7; 8]%nat
+  /\ (let '(rc, m', s') := make_owner_m 1 m (ms_init NoFault) in
+      rc = URI_SUCCESS /\ text_blocks m' = [0; 1]%nat /\ depends_on_input m' = false)
+  /\ (let '(rc, m', s') := normalize_m 1 63 m (ms_init NoFault) in
+      rc = URI_SUCCESS /\ text_blocks m' = [0; 1]%nat /\ depends_on_input m' = false
+      /\ scheme (erase m') = Some [115]).
+Proof. vm_compute. repeat split. Qed.
+
+(* the two insane witnesses of C13's refutation (present-but-empty scheme, present-but-empty IPvFuture text),
+   normalised under NoFault: success, one block, live, no bad release, all text owned *)
+Example C12_insane_nofault_examples :
+  (let '(rc, m', s') := normalize_m 1 63 w_empty_scheme (ms_init NoFault) in
+   rc = URI_SUCCESS /\ muri_blocks m' = [0]%nat /\ live_ids s' = [0]%nat /\ bad_frees s' = 0%nat /\ all_owned m' = true)
+  /\ (let '(rc, m', s') := normalize_m 1 63 w_empty_future (ms_init NoFault) in
+      rc = URI_SUCCESS /\ muri_blocks m' = [0]%nat /\ live_ids s' = [0]%nat /\ bad_frees s' = 0%nat /\ all_owned m' = true).
 Proof. vm_compute. repeat split. Qed.
